@@ -192,6 +192,45 @@ Proof.
 Qed.
 
 (* every builder state reachable by add_raw / copy_missing_tables satisfies the map invariant *)
+(* ---------- build drains the builder ---------- *)
+Lemma keys_remove_perm t m : In t (keys m) -> Permutation (keys m) (t :: keys (remove_key t m)).
+Proof.
+  induction m as [|[k v] r IH]; intros H; [destruct H|].
+  cbn [remove_key]. destruct (t =? k) eqn:E.
+  - apply Z.eqb_eq in E. subst. apply Permutation_refl.
+  - apply Z.eqb_neq in E. cbn [keys map fst] in *. destruct H as [H|H]; [congruence|].
+    eapply perm_trans; [apply perm_skip, IH, H|]. apply perm_swap.
+Qed.
+Lemma drain_all l : forall m, Permutation l (keys m) -> fold_left (fun m t => remove_key t m) l m = [].
+Proof.
+  induction l as [|t l IH]; intros m H.
+  - apply Permutation_nil in H. destruct m; [reflexivity|discriminate].
+  - cbn [fold_left]. apply IH.
+    assert (Hin : In t (keys m)) by (eapply Permutation_in; [exact H | left; reflexivity]).
+    eapply Permutation_cons_inv. eapply perm_trans; [exact H|]. apply keys_remove_perm, Hin.
+Qed.
+(* whatever the builder held (zero-length tables included), after build() it holds nothing *)
+Lemma build_drains m : after_build m = [].
+Proof.
+  unfold after_build, ordered_tags. apply drain_all.
+  apply Permutation_sym. unfold keys. apply Permutation_map, ordered_entries_perm.
+Qed.
+Lemma build_drains_observations m t : lookup t (after_build m) = None /\ contains (after_build m) t = false.
+Proof. rewrite build_drains. split; reflexivity. Qed.
+(* so a builder reused after build() behaves like a fresh one: the ops after a build op start from [] *)
+Lemma apply_ops_reuse (ops1 ops2 : list op) file m0 m1 :
+  fold_left apply_op ops1 (Some m0) = Some m1 -> build m1 = Some file ->
+  fold_left apply_op (ops1 ++ (6, 0, file) :: ops2) (Some m0) = fold_left apply_op ops2 (Some []).
+Proof.
+  intros H1 H2. rewrite fold_left_app, H1. cbn [fold_left]. unfold apply_op at 2. cbn [obind].
+  change (6 =? 0) with false. change (6 =? 1) with false. change (6 =? 3) with false.
+  change (6 =? 4) with false. change (6 =? 6) with true. cbv iota. rewrite H2. cbn [obind].
+  assert (E : zlist_eqb file file = true).
+  { unfold zlist_eqb. rewrite Nat.eqb_refl. cbn [andb]. clear. induction file as [|x f IH]; [reflexivity|].
+    cbn [combine forallb fst snd]. rewrite Z.eqb_refl. exact IH. }
+  rewrite E, build_drains. reflexivity.
+Qed.
+
 Lemma apply_op_none ops : fold_left apply_op ops None = None.
 Proof. induction ops as [|o ops IH]; [reflexivity|]. cbn. exact IH. Qed.
 
@@ -210,6 +249,10 @@ Proof.
       - rewrite apply_op_none in H. discriminate. }
     destruct (k =? 3); [eapply IH; [|exact H]; apply add_table_wf; exact H0|].
     destruct (k =? 4); [eapply IH; [|exact H]; apply add_table_wf; exact H0|].
+    destruct (k =? 6).
+    { destruct (build m0) as [file|]; cbn [obind] in H; [|rewrite apply_op_none in H; discriminate].
+      destruct (zlist_eqb file d); [|rewrite apply_op_none in H; discriminate].
+      eapply IH; [|exact H]. rewrite build_drains. apply wf_nil. }
     rewrite apply_op_none in H. discriminate.
 Qed.
 
